@@ -129,8 +129,10 @@ WalkPath(p) ==
 NodeAt(w)  == IF w.err = "ok" THEN [k |-> Tree[w.at].k, f |-> Tree[w.at].f] ELSE NoNode
 StatP(p)   == LET w == WalkPath(p)
                   n == NodeAt(w)
-              IN [k |-> n.k, f |-> n.f, out |-> w.out, err |-> w.err]
+              IN [k |-> n.k, f |-> n.f, out |-> w.out, err |-> w.err, at |-> w.at]
 Contained(p) == ~WalkPath(p).out
+\* names in a directory (canonical path), as os.listdir would return them
+Children(n) == {c[Len(c)] : c \in {c \in TreePaths : Len(c) = Len(n) + 1 /\ Parent(c) = n}}
 
 \* self-checks of the tree and of the resolver (TLC evaluates them once)
 ASSUME \A c \in TreePaths : Parent(c) \in TreePaths
